@@ -38,7 +38,7 @@ def run(ctx):
                 '(input, options, command)')
     ctx.proof = common.prove('C02')
     rng = ctx.rng
-    n = 80 if ctx.thorough else 12
+    n = 80 if ctx.thorough else 18
     jobs = []
     for i in range(n):
         extra = []
@@ -53,6 +53,8 @@ def run(ctx):
                                 size='small' if i % 3 else 'medium'))
     for j in jobs:
         j['timeout'] = 600 if ctx.thorough else 240
+        if not ctx.thorough and '--no-core' in j['opts']:
+            j['opts'].remove('--no-core')      # without the shrinking core mutators runs get very long (thorough tier only)
     runs = e2e.run_many(jobs)
     import concurrent.futures
     todo = [(j, r) for j, r in zip(jobs, runs) if not r.hung and r.rc == 0 and r.outtext is not None]
@@ -84,6 +86,24 @@ def run(ctx):
         if r.hung or r.rc != 0:
             ctx.notes.append(f'run ended abnormally (rc={r.rc}, hung={r.hung}): {j["opts"]}')
     ctx.count('proposals re-tested on final outputs', total)
+    # TIE-H: every history is replayed in the extracted scheduler model (the model must also reach `finished`)
+    import hiermon
+    ok_, log_ = common.build_driver()
+    if not ok_:
+        raise common.BuildError(log_[-3000:])
+    model = common.Model()
+    built = [(j, hiermon.build(r.events)) for j, r in zip(jobs, runs) if not r.hung and r.rc == 0]
+    good = [(j, b) for j, b in built if b is not None and 'error' not in b]
+    for j, b in built:
+        if b is not None and 'error' in b:
+            ctx.disagree('scheduler history (reconstruction)', input=j['text'][:600], options=j['opts'], detail=b['error'])
+    nact = 0
+    for (j, b), r_ in zip(good, model.batch([(80, b['arg']) for _, b in good])):
+        nact += b['nactions']
+        for msg in hiermon.compare(r_, b):
+            ctx.disagree('scheduler history vs Model/SchedHier.v', input=j['text'][:800], options=j['opts'], command=j['cmd'], env=j['env'], detail=msg)
+    ctx.count('histories replayed in the model', len(good))
+    ctx.count('model actions replayed', nact)
     ctx.extra['runs'] = len(runs)
     ctx.assumptions += ['deterministic command; the enabled mutators are those determined from the original input (theory detection)',
                         'Pool delivers exactly one result per generated task']
